@@ -488,8 +488,21 @@ def run_instrumented(sc, clock=None):
                           'state_name': getattr(chart, 'state_name', None), 'cur': _cur(chart, handlers, logged),
                           'current_state': chart.current_state() if hasattr(chart, 'current_state') else None})
             del rec.actions[:], inv[:], live_spy[:], live_trace[:]
+        pre_posted = bool(sc.get('post_before_start')) and hasattr(chart, 'post_fifo')
+        if pre_posted:
+            for sg in sc['events']:
+                chart.post_fifo(Event(signal=sg))          # queued before the chart is started
         chart.start_at(handlers[sc['start']])
         snap(None)
+        if pre_posted:
+            for sg in sc['events']:
+                chart.next_rtc()
+                snap(sg)
+            return steps, chart
+        if sc.get('clear_after_start') and hasattr(chart, 'clear_spy'):
+            chart.clear_spy()
+            chart.clear_trace()
+            steps[0]['cleared'] = True
         for sg in sc['events']:
             ev = Event(signal=sg)
             if hasattr(chart, 'post_fifo'):
